@@ -8,6 +8,7 @@ import OAuth2Model.Driver.SecEq
 import OAuth2Model.Driver.Resp
 import OAuth2Model.Driver.Revoke
 import OAuth2Model.Driver.Dbg
+import OAuth2Model.Driver.AsyncD
 import OAuth2Model.Driver.Tok
 import OAuth2Model.Driver.Err
 import OAuth2Model.Driver.Adapter
@@ -31,6 +32,7 @@ def dispatch (line : String) : String :=
     | "resp" => Drv.RespOp.run args
     | "revoke" => Drv.RevokeOp.run args
     | "dbg" => Drv.DbgOp.run args
+    | "async" => Drv.AsyncOp.run args
     | "tok" => Drv.TokOp.run args
     | "err" => Drv.ErrOp.run args
     | "adp" => Drv.AdapterOp.run args
